@@ -296,11 +296,18 @@ def fam_history(w: World) -> None:
                 break
             seen.append(i)
         items = [mk(i) for i in ids]
+        # extend() takes any iterable of messages: a list, a tuple, or a one-shot generator / iterator
+        form = ch.choice(['list', 'tuple', 'generator', 'iterator'], 'extend.form') if op[0] == 'extend' else 'one'
+        if op[0] == 'extend':
+            op = ('extend', ids, form)
+            ops[-1] = op
+            w.probe('extend.' + form)
         try:
             if op[0] == 'append':
                 batch.append(items[0])
             else:
-                batch.extend(items)
+                batch.extend(items if form == 'list' else tuple(items) if form == 'tuple' else
+                             (x for x in items) if form == 'generator' else iter(items))
             ok = True
         except IdentityError:
             ok = False
